@@ -192,6 +192,14 @@ func (r *reference) resolve(cfg *Config, opts *options) (value, error) {
 }
 
 func (r *reference) eval(cfg *Config, opts *options) (string, error) {
+	// The reference only counts as being evaluated (for cycle detection) until
+	// its value has been turned into a string. Using the same variable once
+	// more afterwards, e.g. "${a}${a}" or "${a}-${d}" with d: "${a}", is no cycle.
+	name := r.Path.String()
+	if fields := opts.activeFields; fields != nil && !fields.Has(name) {
+		defer fields.Remove(name)
+	}
+
 	v, err := r.resolve(cfg, opts)
 	if err != nil {
 		return "", err
